@@ -36,7 +36,8 @@ class C04(Prop):
             "Non-trivial = a write that succeeded and was read back, or a refused write; distinct by full case.")
     assumptions = ["sample values are representable at the declared depth",
                    "PRESTO .inf passes tsamp/tstart/DM through decimal formatting (compared to its precision)"]
-    regimes_expected = ["fil-same-dtype", "fil-other-dtype", "fil-other-dtype-nonflat-layout", "fil-subbyte", "block", "tim", "dat", "spec", "fft"]
+    regimes_expected = ["fil-same-dtype", "fil-other-dtype", "fil-other-dtype-nonflat-layout", "fil-subbyte", "block", "tim", "dat", "spec", "fft",
+                        "depth-by-arg", "depth-by-updates", "depth-arg-vs-updates", "depth-reused-updates"]
     budget_s = (120, 900)
 
     def _fil_case(self, rng):
@@ -57,7 +58,12 @@ class C04(Prop):
             vals = [rng.randrange(-5000, 5000) for _ in range(n * C)]
             if dt != "int64":
                 vals = [v / 8 for v in vals]
+        # how the output depth is requested: the source header already has it / `nbits=` argument / only through
+        # `updates={"nbits": …}` / `nbits=` argument contradicting an `updates` entry (the argument is the depth of
+        # the writer) / an `updates` dict that an earlier prep_outfile call (another depth) has already seen
+        how = rng.choice(("same", "same", "arg", "updates", "arg-vs-updates", "reused-updates"))
         return {"kind": "fil", "nbits": nbits, "C": C, "n": n, "dtype": dt, "parts": parts, "layout": layout,
+                "how": how, "src_bits": rng.choice([b for b in (1, 2, 4, 8, 16, 32) if b != nbits]),
                 "vals": vals, "tsamp": rng.choice((64e-6, 1e-3)),
                 "tstart": rng.choice((58000.0, 59123.456789)), "dm": rng.choice((0.0, 56.7))}
 
@@ -116,9 +122,24 @@ class C04(Prop):
         from sigpyproc.readers import FilReader
 
         nbits, C, n = case["nbits"], case["C"], case["n"]
-        h = mk_header(C, nbits, tsamp=case["tsamp"], tstart=case["tstart"], dm=case["dm"])
+        how = case.get("how", "same")
         p = d / "out.fil"
-        w = h.prep_outfile(str(p))
+        if how == "same":
+            h = mk_header(C, nbits, tsamp=case["tsamp"], tstart=case["tstart"], dm=case["dm"])
+            w = h.prep_outfile(str(p))
+        else:
+            h = mk_header(C, case["src_bits"], tsamp=case["tsamp"], tstart=case["tstart"], dm=case["dm"])
+            if how == "arg":
+                w = h.prep_outfile(str(p), nbits=nbits)
+            elif how == "updates":
+                w = h.prep_outfile(str(p), updates={"nbits": nbits})
+            elif how == "arg-vs-updates":
+                w = h.prep_outfile(str(p), updates={"nbits": case["src_bits"]}, nbits=nbits)
+            else:                                   # reused-updates
+                h = mk_header(C, nbits, tsamp=case["tsamp"], tstart=case["tstart"], dm=case["dm"])
+                upd = {"tstart": case["tstart"]}
+                h.prep_outfile(str(d / "first.fil"), updates=upd, nbits=case["src_bits"]).close()
+                w = h.prep_outfile(str(p), updates=upd)
         arr = np.array(case["vals"], dtype=DT[case["dtype"]])
         pos = 0
         werr = None
@@ -321,6 +342,12 @@ class C04(Prop):
     def regime(self, case, obs):
         if case["kind"] != "fil":
             return case["kind"]
+        how = case.get("how", "same")
+        if how != "same":
+            return ["depth-by-" + how if how in ("arg", "updates") else "depth-" + how, self._fil_regime(case)]
+        return self._fil_regime(case)
+
+    def _fil_regime(self, case):
         if case["nbits"] < 8:
             return "fil-subbyte"
         native = {8: "uint8", 16: "uint16", 32: "float32"}[case["nbits"]]
